@@ -66,6 +66,65 @@ def run(chk):
     os.makedirs(os.path.join(wd, 'tmp'), exist_ok=True)
     nsample = 6000 if thorough else 1200
     cand = [r for r in rows if not (r['A'] and r['A'][-1] == []) and not (r['E'] and r['E'][-1] == [])]
+    index = {json.dumps([r['A'], r['E']]): r for r in rows}
+
+    def b_to_a(text):
+        return [['a' if t == 'b' else t for t in l] for l in text]
+    # every option decides at every entry point: pairs of option sets that differ in ONE option and whose verdicts differ
+    nsens = 0
+    differing = [r for r in cand if r['A'] != r['E'] and 0 < sum(r['spec']) < tl.NOPTS]
+    for i in range(3000 if thorough else 600):
+        r = rnd.choice(differing)
+        pairs = []
+        for k in rnd.sample(range(tl.NOPTS), 64):
+            for k2 in one_option_changed(k):
+                if r['dem'][k] and r['dem'][k2] and r['spec'][k] != r['spec'][k2]:
+                    pairs.append((k, k2))
+        if not pairs:
+            continue
+        v = rnd.randrange(3)
+        entry = ['string', 'file', 'files'][i % 3]
+        for k in rnd.choice(pairs):
+            o = tl.opt_of(k)
+            got, msg = tl.call_entry(ref, entry, tl.lines(r['A'], v), tl.lines(r['E'], v), tl.kwargs_of(o, v), wd, True, True, tag='s%d' % (i % 50))
+            nsens += 1
+            want = 'pass' if r['spec'][k] else 'fail'
+            if got != want:
+                m = {'A': r['A'], 'E': r['E'], 'opts': o, 'observed': got, 'expected': want, 'entry': entry,
+                     'final_newline': [True, True], 'preprocess': False, 'variant': v, 'message': msg[:300], 'one_option_pair': True}
+                chk.violation(signature(m), dict(m, how='ReferenceTest.assert%s on real files; one of two option sets that differ in one '
+                                                         'option and in their verdict' % entry))
+    chk.coverage['one_option_decides_cases'] = nsens
+    # preprocess decides: the function maps one letter to the other, the verdict is that of the mapped pair (another row)
+    prepairs = []
+    for r in rnd.sample(cand, min(len(cand), 6000)):
+        if any('b' in l for l in r['A'] + r['E']):
+            r2 = index.get(json.dumps([b_to_a(r['A']), b_to_a(r['E'])]))
+            if r2 is not None:
+                prepairs.append((r, r2))
+    npre = 0
+    for i in range(2000 if thorough else 400):
+        r, r2 = rnd.choice(prepairs)
+        ks = [k for k in range(tl.NOPTS) if r['dem'][k] and r2['dem'][k] and r['spec'][k] != r2['spec'][k]]
+        if not ks:
+            continue
+        k = rnd.choice(ks)
+        v = rnd.randrange(3)
+        o = tl.opt_of(k)
+        kw = tl.kwargs_of(o, v)
+        kw['preprocess'] = (lambda m_: lambda ls: [x.replace(m_['b'], m_['a']) for x in ls])(tl.TOKMAPS[v])
+        entry = ['string', 'file', 'files'][i % 3]
+        got, msg = tl.call_entry(ref, entry, tl.lines(r['A'], v), tl.lines(r['E'], v), kw, wd, True, True, tag='q%d' % (i % 50))
+        npre += 1
+        want = 'pass' if r2['spec'][k] else 'fail'
+        if got != want:
+            m = {'A': r['A'], 'E': r['E'], 'opts': o, 'observed': got, 'expected': want, 'entry': entry,
+                 'final_newline': [True, True], 'preprocess': True, 'variant': v, 'message': msg[:300]}
+            chk.violation(signature(m), dict(m, how='ReferenceTest.assert%s on real files with preprocess = "replace one letter by the '
+                                                     'other"; expected verdict = that of the replaced pair' % entry))
+    chk.coverage['preprocess_decides_cases'] = npre
+    chk.coverage['replayed_cases'] += npre
+    chk.coverage['replayed_cases'] += nsens
     for i in range(nsample):
         r = rnd.choice(cand)
         k = rnd.randrange(tl.NOPTS)
@@ -74,16 +133,22 @@ def run(chk):
         v = rnd.randrange(3)
         o = tl.opt_of(k)
         kw = tl.kwargs_of(o, v)
-        pre = rnd.random() < 0.2 and 2 not in o['pats']      # the letter pattern is case-sensitive
+        # preprocess: a function that maps one letter to the other; the verdict is that of the mapped pair (another row)
+        pre = rnd.random() < 0.3
+        want = 'pass' if r['spec'][k] else 'fail'
         if pre:
-            kw['preprocess'] = lambda ls: [x.upper() for x in ls]
-            if v != 0:
+            r2 = index.get(json.dumps([b_to_a(r['A']), b_to_a(r['E'])]))
+            if r2 is None or not r2['dem'][k]:
                 continue
+            if r2['spec'][k] == r['spec'][k] and rnd.random() < 0.7:
+                continue        # (mostly pairs on which the preprocessing decides the verdict)
+            want = 'pass' if r2['spec'][k] else 'fail'
+            kw['preprocess'] = (lambda m_: lambda ls: [x.replace(m_['b'], m_['a']) for x in ls])(tl.TOKMAPS[v])
+            chk.coverage['preprocess_cases'] = chk.coverage.get('preprocess_cases', 0) + 1
         entry = rnd.choice(['string', 'file', 'files'])
         nl_a, nl_e = rnd.random() < 0.7, rnd.random() < 0.7
         got, msg = tl.call_entry(ref, entry, tl.lines(r['A'], v), tl.lines(r['E'], v), kw, wd, nl_a, nl_e, tag=str(i % 50))
         chk.coverage['replayed_cases'] += 1
-        want = 'pass' if r['spec'][k] else 'fail'
         if got != want:
             m = {'A': r['A'], 'E': r['E'], 'opts': o, 'observed': got, 'expected': want, 'entry': entry,
                  'final_newline': [nl_a, nl_e], 'preprocess': pre, 'variant': v, 'message': msg[:300]}
@@ -135,6 +200,16 @@ def run(chk):
     chk.assume('token alphabet: two letters, two digits, blank, remove marker, ignore marker; ignore patterns \\d+ and [ab]\\d+ in both orders')
     chk.assume('trailing empty lines, and permutation / pattern options on blank-padded lines under stripping, are compared '
                'with the transcription only (TextCompare.Demanded)')
+
+
+def one_option_changed(k):
+    """Option-set numbers that differ from k in exactly one option (text_lib.opt_of)."""
+    out = [k ^ 1, k ^ 2, k ^ 4, k ^ 8]
+    pats, mpc = (k // 16) % 4, k // 64
+    base = k - 16 * pats - 64 * mpc
+    out += [base + 16 * p + 64 * mpc for p in range(4) if p != pats]
+    out += [base + 16 * pats + 64 * c for c in range(4) if c != mpc]
+    return out
 
 
 def signature(m):
